@@ -333,6 +333,104 @@ def _check_path(kind, fmt, tmp):
     return fails
 
 
+# ------------------------------------------------------------------------------------------------ chains across scopes
+# scope structure of _schema(): include keys in declaration order, nested schemas
+SCOPE_TREE = {"includes": ["inc", "inc2"],
+              "subs": {"sub": {"includes": ["inc", "inc2"],
+                               "subs": {"deep": {"includes": ["inc"], "subs": {}}}},
+                       "plain": {"includes": [], "subs": {}}}}
+
+
+def _resolve(scope, tree, file_tree):
+    """the single merged tree of the property, scope by scope: merge the files this scope names (declaration order,
+    included values win), then descend into every sub-schema key present in the MERGED tree"""
+    tree = copy.deepcopy(tree)
+    for key in scope["includes"]:
+        if tree.get(key) is not None:
+            tree = merge(tree, file_tree(tree[key]))
+    for key, sub in scope["subs"].items():
+        if isinstance(tree.get(key), dict):
+            tree[key] = _resolve(sub, tree[key], file_tree)
+    return tree
+
+
+# "@name" stands for the path of file `name` as the including document spells it (relative / absolute)
+CHAIN_SCENARIOS = [
+    {"name": "root-file-names-sub-include", "main": {"inc": "@a", "x": 1},
+     "files": {"a": {"y": "a", "sub": {"inc": "@s", "p": 1, "q": "a"}}, "s": {"p": 2, "free": {"k": 1}}}},
+    {"name": "root-file-names-sub-include-main-has-sub", "main": {"inc": "@a", "x": 1, "sub": {"q": "main"}},
+     "files": {"a": {"sub": {"inc": "@s", "p": 1}}, "s": {"p": 2, "q": "s"}}},
+    {"name": "root-file-names-deep-include", "main": {"inc": "@a", "x": 1},
+     "files": {"a": {"sub": {"p": 1, "deep": {"inc": "@d", "r": 1, "s": "a"}}}, "d": {"r": 2}}},
+    {"name": "second-root-include-names-sub-include", "main": {"inc": "@a", "inc2": "@b", "x": 1},
+     "files": {"a": {"x": 2, "sub": {"p": 1}}, "b": {"y": "b", "sub": {"inc": "@s", "q": "b"}}, "s": {"p": 3, "q": "s"}}},
+    {"name": "second-root-include-names-deep-include", "main": {"inc": "@a", "inc2": "@b"},
+     "files": {"a": {"x": 2}, "b": {"sub": {"deep": {"inc": "@d", "s": "b"}}}, "d": {"r": 4, "s": "d"}}},
+    {"name": "sub-file-names-deep-include", "main": {"x": 1, "sub": {"inc": "@s", "p": 1}},
+     "files": {"s": {"p": 2, "deep": {"inc": "@d", "r": 1}}, "d": {"r": 2, "s": "d"}}},
+    {"name": "three-scopes-in-a-row", "main": {"inc": "@a"},
+     "files": {"a": {"x": 2, "sub": {"inc": "@s", "p": 1}}, "s": {"p": 2, "deep": {"inc": "@d", "r": 1}},
+               "d": {"r": 3, "s": "d"}}},
+    {"name": "sub-file-names-second-sub-include", "main": {"sub": {"inc": "@s", "p": 1}},
+     "files": {"s": {"inc2": "@t", "p": 2, "q": "s"}, "t": {"q": "t", "free": {"a": 1}}}},
+    {"name": "root-file-contributes-plain-branch-and-sub-include", "main": {"inc": "@a", "plain": {"u": 1}},
+     "files": {"a": {"plain": {"v": "a"}, "sub": {"inc": "@s"}}, "s": {"p": 7, "deep": {"r": 7}}}},
+]
+
+
+def _check_chain(sc, fmt, mode, via, tmp):
+    import cincoconfig as cc
+    fails = []
+    base = os.path.join(tmp, "chain-%s-%s-%s-%s" % (sc["name"], fmt, mode, via))
+    incdir = os.path.join(base, "inc")
+    os.makedirs(incdir, exist_ok=True)
+
+    def spelled(name):
+        return name + "." + fmt if mode == "relative" else os.path.join(incdir, name + "." + fmt)
+
+    def subst(tree):
+        if isinstance(tree, dict):
+            return {k: subst(v) for k, v in tree.items()}
+        if isinstance(tree, str) and tree.startswith("@"):
+            return spelled(tree[1:])
+        return copy.deepcopy(tree)
+
+    files = {name: subst(tree) for name, tree in sc["files"].items()}
+    by_spelling = {spelled(name): tree for name, tree in files.items()}
+    for name, tree in files.items():
+        with open(os.path.join(incdir, name + "." + fmt), "wb") as fp:
+            fp.write(_dump(fmt, tree))
+    main = subst(sc["main"])
+    doc = _dump(fmt, main)
+    cfg = _schema(incdir)()
+    try:
+        if via == "loads":
+            cfg.loads(doc, fmt)
+        else:
+            mainfile = os.path.join(base, "main." + fmt)
+            with open(mainfile, "wb") as fp:
+                fp.write(doc)
+            cfg.load(mainfile, fmt)
+    except Exception as exc:
+        return [("core:Config._process_includes/post:C18.nested-include-contributed-by-included-file",
+                 "scenario %s (%s, %s path, %s): load raised %s: %s" % (sc["name"], fmt, mode, via, type(exc).__name__, exc),
+                 "chain:raises:%s" % sc["name"])]
+    want_tree = _resolve(SCOPE_TREE, main, lambda spelling: by_spelling[spelling])
+    ref = _schema(incdir)()
+    ref.load_tree(copy.deepcopy(want_tree))
+    got, got_marks = _observable(cfg)
+    want, want_marks = _observable(ref)
+    if not _same_tree(got, want) or got_marks != want_marks:
+        fg, fw = _flat(got), _flat(want)
+        diff = sorted(k for k in set(fg) | set(fw) if not strict_eq(fg.get(k, "<absent>"), fw.get(k, "<absent>")))
+        fails.append(("core:Config._process_includes/post:C18.nested-include-contributed-by-included-file",
+                      "scenario %s (%s, %s path, %s): differs from load_tree(fully merged tree) at %r: loaded %r, merged %r; "
+                      "user-defined %r vs %r" % (sc["name"], fmt, mode, via, diff, {k: fg.get(k, "<absent>") for k in diff},
+                                                 {k: fw.get(k, "<absent>") for k in diff}, got_marks, want_marks),
+                      "chain:" + sc["name"]))
+    return fails
+
+
 # ------------------------------------------------------------------------------------------------ repeated loads
 RELOAD = {
     "main": {"y": "main", "x": 1, "free": {"own": 1, "m": {"main": [0]}}, "sub": {"q": "main"}},
@@ -439,6 +537,9 @@ RELOAD_KINDS = ("fresh-config-same-schema", "fresh-config-new-schema", "load-twi
 
 
 def _run(case, tmp):
+    if case["check"] == "chain-across-scopes":
+        sc = [x for x in CHAIN_SCENARIOS if x["name"] == case["scenario"]][0]
+        return _check_chain(sc, case["format"], case["mode"], case["via"], tmp)
     if case["check"] == "reload":
         return _check_reload(case["kind"], case["format"], case["mode"], case["via"], tmp)
     if case["check"] == "combine":
@@ -481,7 +582,10 @@ def rac(tier="quick", seed=0):
         rule="(a) ordered pair of plain trees -> combine_trees vs reference merge + both inputs unchanged; non-trivial iff "
              "both trees are non-empty; (b) seeded random deeper pairs and chains of two merges; (c) (scenario, format, "
              "path mode, load|loads) -> configuration after load with include files == after load_tree/loads of the merged "
-             "tree (values and user-defined marks); (d) (path kind, format) -> startdir resolution / failing load; (e) (reload kind, "
+             "tree (values and user-defined marks); (d) (path kind, format) -> startdir resolution / failing load; (f) (chain scenario, format, path mode, entry point) -> the including document "
+             "names an include only at an enclosing scope and the INCLUDED file contributes a nested sub-configuration that "
+             "names its own include: load == load_tree(tree resolved scope by scope: merge the scope's includes, then "
+             "descend into every sub-schema key of the merged tree); (e) (reload kind, "
              "format, path mode, entry point) -> load with root + nested includes into A, change A's mutable values in "
              "place (untyped list/dict values and their nested items), load the unchanged files into a fresh B (same or "
              "new schema): B == load_tree(merged); same configuration loaded twice (with/without changes in between) == "
@@ -489,7 +593,9 @@ def rac(tier="quick", seed=0):
         bound="(a) all 144x144 pairs of trees over keys {a,b}, leaves {1,'x'}, depth <= 2 (overlapping/disjoint keys, "
               "map/non-map conflicts at 2 depths); (b) quick 1500 / thorough 40000 random pairs + chains, depth <= 4, 4 keys, "
               "10 leaf values incl. lists/None/empty; (c) 13 scenarios (root, nested, depth-3, two includes in one scope, "
-              "all scopes at once) x 5 formats x 4 path modes x 2 entry points; (d) 6 path kinds x 5 formats; (e) 4 reload kinds x 5 formats x 2 path modes x 2 entry "
+              "all scopes at once) x 5 formats x 4 path modes x 2 entry points; (d) 6 path kinds x 5 formats; (f) 9 chain scenarios (root file names a sub / depth-3 include, second of two root "
+              "includes names it, sub file names a deeper or a second sub include, three scopes in a row) x 5 formats x 2 "
+              "path modes x 2 entry points; (e) 4 reload kinds x 5 formats x 2 path modes x 2 entry "
               "points, 14 in-place changes at depth <= 3",
         tier=tier, seed=seed)
     with sandbox() as tmp:
@@ -499,7 +605,7 @@ def rac(tier="quick", seed=0):
                 case = {"check": "combine", "base": base, "child": child}
                 fails = _check_combine(copy.deepcopy(base), copy.deepcopy(child))
                 rec.case(key=("pair", bi, ci), nontrivial=bool(base) and bool(child),
-                         sample=case if (bi * 144 + ci) % 6007 == 7 else None)
+                         sample=case if (bi * 144 + ci) % 9001 == 7 else None)
                 for obligation, what, wk in fails:
                     rec.violation(obligation=obligation, what=what, replay=dict(case, obligation=obligation), witness_key=wk)
         for sc in SCENARIOS:
@@ -510,6 +616,18 @@ def rac(tier="quick", seed=0):
                         fails = _run(case, tmp)
                         rec.case(key=("load", sc["name"], fmt, mode, via), nontrivial=bool(sc["includes"]),
                                  sample=case if (fmt, mode, via) == ("yaml", "relative", "loads") and sc["name"] == "all-scopes" else None)
+                        for obligation, what, wk in fails:
+                            rec.violation(obligation=obligation, what=what, replay=dict(case, obligation=obligation),
+                                          witness_key=wk)
+        for sc in CHAIN_SCENARIOS:
+            for fmt in FORMATS:
+                for mode in ("relative", "absolute"):
+                    for via in ("loads", "load"):
+                        case = {"check": "chain-across-scopes", "scenario": sc["name"], "format": fmt, "mode": mode,
+                                "via": via}
+                        fails = _run(case, tmp)
+                        rec.case(key=("chain", sc["name"], fmt, mode, via), nontrivial=True,
+                                 sample=case if (sc["name"], fmt, mode, via) == ("three-scopes-in-a-row", "xml", "relative", "load") else None)
                         for obligation, what, wk in fails:
                             rec.violation(obligation=obligation, what=what, replay=dict(case, obligation=obligation),
                                           witness_key=wk)
